@@ -1,17 +1,19 @@
 #!/usr/bin/env python3
-"""store_seed.py <prop> <suffix> <needs text>  -- copies /tmp/mut/<prop>/out into seeded/<prop>-<suffix> and removes the worktree"""
+"""store_seed.py <prop> <suffix> <needs text> [<scratch dir name, default = prop>]
+copies /tmp/mut/<dir>/out into seeded/<prop>-<suffix> and removes the worktree"""
 import json,os,shutil,subprocess,sys
 pid,suf,need=sys.argv[1:4]
+dname=sys.argv[4] if len(sys.argv)>4 else pid
 d=f'/verif/seeded/{pid}-{suf}'; os.makedirs(d,exist_ok=True)
 for f in ('patch.diff','demo.py','notes.md'):
-    if os.path.exists(f'/tmp/mut/{pid}/out/{f}'): shutil.copy(f'/tmp/mut/{pid}/out/{f}',f'{d}/{f}')
-log=open(f'/tmp/mut/{pid}/confirm.log').read()
-base=subprocess.run(['git','-C',f'/tmp/mut/{pid}/wt','rev-parse','--short','HEAD'],capture_output=True,text=True).stdout.strip()
+    if os.path.exists(f'/tmp/mut/{dname}/out/{f}'): shutil.copy(f'/tmp/mut/{dname}/out/{f}',f'{d}/{f}')
+log=open(f'/tmp/mut/{dname}/confirm.log').read()
+base=subprocess.run(['git','-C',f'/tmp/mut/{dname}/wt','rev-parse','--short','HEAD'],capture_output=True,text=True).stdout.strip()
 json.dump({"property":pid,"id":f"{pid}-{suf}","needs_to_manifest":need,
   "source":f"independent sub-agent given only the property text and a scratch worktree (base {base})",
   "confirmed_by":"tools/confirm_seed.sh in the scratch worktree: existing suite with patch 88 passed; demo.py exit 1 with patch, exit 0 without; patch applies cleanly to /repo HEAD",
   "confirm_log_tail":[l for l in log.splitlines() if any(k in l for k in ('passed','exit=','applies'))],
   "detected_by":None},open(d+'/meta.json','w'),indent=1)
-subprocess.run(['git','-C','/repo','worktree','remove','--force',f'/tmp/mut/{pid}/wt'])
-shutil.rmtree(f'/tmp/mut/{pid}',ignore_errors=True)
+subprocess.run(['git','-C','/repo','worktree','remove','--force',f'/tmp/mut/{dname}/wt'])
+shutil.rmtree(f'/tmp/mut/{dname}',ignore_errors=True)
 print('stored',d)
